@@ -5,6 +5,7 @@
 (*  {"e":"Rec","delay":us,"per":us,"times":n,"steady":0|1,"kind":0 immediate|1 pool,    *)
 (*   "action":0 none|1 cancel()|2 destroy early|3 detach,"falseAt":j,                    *)
 (*   "n":invocations in total,"first":us to the first invocation (-1 = none),            *)
+(*   "firstLib":the same on the dispenso::getTime() scale,                               *)
 (*   "calls":calls() before destruction,"enteredAtCalls":invocations entered by then,    *)
 (*   "atCancel":invocations entered when cancel() had returned (-1),                     *)
 (*   "inprog":invocations inside the function when ~TimedTask() had returned,            *)
